@@ -23,8 +23,6 @@ TEMPLATE_PANIC_TABLE = {
         why="slot.1.expect(): same generator condition as CheckMissing's presence check (rule C07.S.init-vs-check)"),
     (common.TOK % "attrs_field::Initializer<'_>", "expect"): dict(
         who="populator-pairing", why="forwarded attrs value: declaration => populator on every generator path (rule C07.P.populator)"),
-    ("<darling_core::options::shape::DeriveInputShapeSet as quote::to_tokens::ToTokens>::to_tokens", "unreachable"): dict(
-        finding="F5", why="generated __validate_body: syn::Data::Union(_) => unreachable!()"),
 }
 
 
